@@ -23,3 +23,4 @@ package fdsmr
 //@   loop 1 invariant 0 <= idx1 && idx1 <= len(txs)
 //@   loop 1 invariant forall q string :: has(gmap("bonded", n.bonder), q) && !old(has(gmap("bonded", n.bonder), q)) ==> has(gmap("items", n.pending), q)
 //@   ensures forall q string :: has(gmap("bonded", n.bonder), q) && !old(has(gmap("bonded", n.bonder), q)) ==> has(gmap("items", n.pending), q)
+
